@@ -11,17 +11,28 @@ Tie (DESIGN.md 3.2 / section 7 C04):
 """
 import ast
 import itertools
+import random
 import re
 from fractions import Fraction
 
 import common
 from common import enc, dec, err_kind
+from props import c04_hist as H
 
 ID = "C04"
 RULE = ("exhaustive small universe (coefficients in {-1,0,1,2}, lb<=3, la<=3) plus random shapes of order 0..8 "
         "(zeros, +1/-1, a0 in {1,-1,other}, sparse high delays, leading-zero denominators, negative delays) built "
-        "from lists, dicts, z-expressions and the LinearFilter base class, with int / Fraction / dyadic-float "
-        "coefficients, memories None / list / finite and endless generator / callable, several zero values; "
+        "from lists, dicts, OrderedDicts, Poly objects, z-expressions, a filter cast and the LinearFilter base class, with "
+        "int / Fraction / dyadic-float coefficients, memories None / list / tuple / deque / iterator / finite and endless "
+        "generator / Stream / Stream subclass with its own __iter__ / callable (lambda, bound method; returning a list, the "
+        "same list, a tuple, a generator), inputs as list / tuple / deque / iterator / generator / Stream / Stream subclass, "
+        "several zero values; + long cases (orders 31..33, 63..65, 127..129, 255..257, 511..513: sparse and dense FIR, "
+        "feedback combs, both; inputs of 1000..5000 (thorough: ..10000) samples around 1024 / 2048 / 4096; exact integer / "
+        "Fraction arithmetic); + histories (c04_hist.py: 6-20 steps on shared objects: memory list / input list / "
+        "coefficient list or dict mutated by the caller between construction, call and consumption, one filter called "
+        "several times, equal filters of different coefficient types in both orders, several live streams consumed "
+        "interleaved in chunks, non-causal filters inside a history; every history runs in a freshly forked process); "
+        "+ cascades (one filter object applied 2-4 times to its own lazy output, a memory per stage: re-entrant use); "
         "a case is non-trivial when the impl yields at least one sample or raises; distinct = distinct JSON case")
 TRUSTED = [
     "hand-written Lean model ALV/Model/C04.lean of LinearFilter.__init__/__call__ (modelled, not verified: Poly "
@@ -32,22 +43,40 @@ TRUSTED = [
     "(constant folding in exact Fractions); self-tested on seeded source edits (extra check) and cross-checked by "
     "the I/O differential on every case",
     "float regime: running rounding-error bound computed in exact arithmetic by the harness (u = 2^-52)",
+    "histories (ALV/Model/C04Hist.lean): modelled, not verified: `Poly(list|dict)` copies its argument, `iter(list)` reads "
+    "item `pos` of the list as it is when the item is requested and is exhausted for good once pos >= len(list), a "
+    "finished generator stays finished; a caller's in-place mutation is sent to Lean as the resulting contents "
+    "(computed on a mirror object that is never handed to the library); flavoured arguments (tuple / deque / copy "
+    "made by the caller) are sent as fresh anonymous lists. Inside Lean every step of every history is proved to be "
+    "answered as the property says (hist_model_eq_spec); that the REAL code keeps no other state is what the "
+    "histories test",
+    "history isolation (harness/props/c04_hist.py:_zygote_start): every history runs in a child forked from a zygote with "
+    "freshly imported audiolazy, so a failing history fails on pristine library state; a disagreeing single call is run "
+    "again in such a child and labelled state-dependent when it agrees there",
+    "long cases: the Lean driver does not execute the generated loop statement by statement (O(order^2) per sample) "
+    "but answers with specCall, equal to the model by theorem filterCall_eq_specCall; the generated source of every "
+    "long case is still compared structurally (T3)",
 ]
 ASSUMPTIONS = [
     "constant (non-Stream) coefficients with integer powers; time-varying coefficients are C06",
     "numbers are modelled as elements of a field (exact rationals in the driver); where the impl itself injects "
     "binary floats (Fraction coefficients formatted as 'p/q' into the exec'd source, int/int true division, float "
-    "coefficients) outputs are compared within a computed rounding-error bound",
+    "coefficients, a non-integer zero value of the all-zero filter) outputs are compared within a computed "
+    "rounding-error bound",
     "a memory shorter than the filter order is outside the property's quantifier; model and spec LEFT-pad it as "
     "coded and a deviation there is reported as a broken correspondence, not as a violated property",
+    "'input x' of a lazily consumed call is the sequence of items the input iterator delivers, one per output: an "
+    "input LIST changed by the caller while outputs are pending is read through python's list iterator (the memory, "
+    "the zero value and the coefficients are fixed at the call / at construction)",
 ]
 MANIFEST = {
     "technique": "Lean 4 refinement proof (generated loop IR = bounded shifting state machine = difference "
                  "equation over unbounded histories = the indexed sentence of the property, any field, all "
-                 "lengths; constructor arguments to outputs end to end) + translator tie T3 (captured source "
-                 "vs Lean compile, structural) + exact I/O differential",
-    "note": "26 theorems, no pending statement; D4 (Fraction gain formatted as '(expr) / p/q') recorded as known "
-            "with proposed_fixes/D4-fraction-gain.diff",
+                 "lengths; constructor arguments to outputs end to end; histories of lazily consumed streams over a "
+                 "heap of caller objects) + translator tie T3 (captured source vs Lean compile, structural) + exact "
+                 "I/O differential (single calls, long orders / inputs, histories in isolated processes)",
+    "note": "35 theorems, no pending statement; D4 (Fraction gain formatted as '(expr) / p/q') fixed in /repo "
+            "(2433df9), proposed_fixes/D4-fraction-gain.diff",
 }
 
 # ---------------------------------------------------------------------------------------------
@@ -80,6 +109,36 @@ def is_float(j):
 
 def is_nonint_frac(j):
     return isinstance(j, str) and Fraction(j).denominator != 1
+
+
+LIST_ROUTES = ("list", "linear", "poly", "cast")        # coefficients given as python lists (pairs = enumerate)
+
+
+def xs_of(c):
+    """the input samples of a case (tagged); long inputs are stored as a pattern:
+    {"n": N, "kind": "quad", "p": [a, b, r, m]}  x[i] = (a*i*i + b*i + r) % m - m//2
+    {"n": N, "kind": "impulse", "at": j, "v": v}  x[j] = v, 0 elsewhere
+    "frac": true -> the integers as Fractions"""
+    if "xs" in c:
+        return c["xs"]
+    p = c["xs_pat"]
+    if p["kind"] == "impulse":
+        v = [0] * p["n"]
+        if p["at"] < p["n"]:
+            v[p["at"]] = p["v"]
+    else:
+        a, b, r, m = p["p"]
+        v = [(a * i * i + b * i + r) % m - m // 2 for i in range(p["n"])]
+    return ["%d/1" % x for x in v] if p.get("frac") else v
+
+
+def gain_of(c):
+    """a[0] after normalisation (tagged), None for an empty denominator"""
+    d = {}
+    for k, v in c["den"]:
+        d[k] = v
+    nz = [k for k, v in d.items() if val(v) != 0]
+    return d[min(nz)] if nz else None
 
 
 # ---------------------------------------------------------------------------------------------
@@ -234,6 +293,18 @@ def _mem_obj(m):
         if how == "stream":
             from audiolazy import Stream
             return Stream(vals)
+        if how == "deque":
+            from collections import deque
+            return deque(vals)
+        if how == "iter":
+            return iter(vals)
+        if how == "substream":              # a Stream subclass with its own __iter__
+            from audiolazy import Stream
+
+            class Sub(Stream):
+                def __iter__(self):
+                    return iter(vals)
+            return Sub([None])
         return list(vals)
     if k == "gen":
         base, step = val(m["base"]), val(m["step"])
@@ -241,6 +312,18 @@ def _mem_obj(m):
     form = m["form"]
     if form == "fixed":
         vals = [val(v) for v in m["vals"]]
+        ret = m.get("ret", "list")
+        if ret == "same":                  # always the very same list object
+            return lambda n: vals
+        if ret == "tuple":
+            return lambda n: tuple(vals)
+        if ret == "gen":
+            return lambda n: (v for v in vals)
+        if ret == "bound":                 # a bound method (callable, not iterable)
+            class Holder(object):
+                def get(self, n):
+                    return list(vals)
+            return Holder().get
         return lambda n: list(vals)
     base, step = val(m["base"]), val(m["step"])
     if form == "arith":
@@ -253,10 +336,19 @@ def _build(c):
     num = [(k, val(v)) for k, v in c["num"]]
     den = [(k, val(v)) for k, v in c["den"]]
     route = c.get("route", "dict")
-    if route in ("list", "linear"):
+    if route in LIST_ROUTES:
         # pairs are enumerate(list) by construction of the case
+        nl, dl = [v for _, v in num], [v for _, v in den]
+        if route == "poly":
+            from audiolazy import Poly
+            return ZFilter(Poly(nl), Poly(dl))
+        if route == "cast":
+            return ZFilter(LinearFilter(nl, dl))
         cls = ZFilter if route == "list" else LinearFilter
-        return cls([v for _, v in num], [v for _, v in den])
+        return cls(nl, dl)
+    if route == "odict":
+        from collections import OrderedDict
+        return ZFilter(OrderedDict(num), OrderedDict(den))
     if route == "zexpr":
         n = sum(v * z ** -k for k, v in num) if num else ZFilter([0])
         d = sum(v * z ** -k for k, v in den)
@@ -264,7 +356,77 @@ def _build(c):
     return ZFilter(dict(num), dict(den))
 
 
+def _xs_obj(xs, how):
+    if how == "iter":
+        return iter(xs)
+    if how == "tuple":
+        return tuple(xs)
+    if how == "gen":
+        return (x for x in xs)
+    if how == "stream":
+        from audiolazy import Stream
+        return Stream(xs)
+    if how == "deque":
+        from collections import deque
+        return deque(xs)
+    if how == "substream":
+        from audiolazy import Stream
+
+        class Sub(Stream):
+            def __iter__(self):
+                return iter(xs)
+        return Sub([None])
+    return xs
+
+
 def impl(c):
+    if c["entry"] == "hist":
+        return H.impl(c)
+    if c["entry"] == "cascade":
+        return impl_cascade(c)
+    return impl_call(c)
+
+
+def impl_cascade(c):
+    """f(f(…f(xs, memory=m1)…), memory=mk): ONE filter object, its generators nested (re-entrant use)"""
+    import audiolazy.lazy_filters as lf
+    captured = []
+    orig = lf._exec_eval
+
+    def spy(data, expr):
+        captured.append(data)
+        return orig(data, expr)
+
+    stage = "init"
+    lf._exec_eval = spy
+    try:
+        filt = _build(c)
+        stage = "call"
+        xs = [val(x) for x in c["xs"]]
+        cur = _xs_obj(xs, c.get("xs_as", "list"))
+        mems = []
+        for m in c["mems"]:
+            kw = {"zero": val(c["zero"])}
+            mo = _mem_obj(m)
+            if mo is not None:
+                kw["memory"] = mo
+            mems.append(mo)
+            cur = filt(cur, **kw)
+        stage = "iter"
+        out = list(cur)
+        irs = [parse_source(src) for src in captured]
+        obs = {"out": [enc(y) for y in out], "n_exec": len(captured), "irs_equal": all(i == irs[0] for i in irs),
+               "ir": irs[0] if irs else {"kind": "unparsed", "why": "no source captured"},
+               "src": captured[0] if captured else None}
+    except Exception as e:
+        obs = {"err": err_kind(e), "stage": stage, "msg": str(e)[:80]}
+    finally:
+        lf._exec_eval = orig
+    return obs
+
+
+def impl_call(c):
+    """one call on the real code, in this process"""
     import audiolazy.lazy_filters as lf
     captured = []
     orig = lf._exec_eval
@@ -285,9 +447,9 @@ def impl(c):
         m = _mem_obj(c.get("mem"))
         if m is not None:
             kw["memory"] = m
-        xs = [val(x) for x in c["xs"]]
-        how = c.get("xs_as", "list")
-        res = filt(iter(xs) if how == "iter" else xs, **kw)
+        xs = [val(x) for x in xs_of(c)]
+        pristine = list(xs)
+        res = filt(_xs_obj(xs, c.get("xs_as", "list")), **kw)
         stage = "iter"
         out = list(res)
         obs["out"] = [enc(y) for y in out]
@@ -295,6 +457,7 @@ def impl(c):
         obs["src"] = captured[-1] if captured else None
         obs["ir"] = parse_source(captured[-1]) if captured else {"kind": "unparsed", "why": "no source captured"}
         obs["n_exec"] = len(captured)
+        obs["xs_modified"] = not (len(xs) == len(pristine) and all(a is b for a, b in zip(xs, pristine)))
     except Exception as e:
         obs = {"err": err_kind(e), "stage": stage, "msg": str(e)[:80]}
     finally:
@@ -302,12 +465,33 @@ def impl(c):
     return obs
 
 
+def _mem_req(m):
+    if m is None:
+        return None
+    mm = {"kind": m["kind"]}
+    if "vals" in m:
+        mm["vals"] = [exact(v) for v in m["vals"]]
+    for f in ("base", "step"):
+        if f in m:
+            mm[f] = exact(m[f])
+    if "form" in m:
+        mm["form"] = m["form"]
+    return mm
+
+
 def request(c):
+    if c["entry"] == "hist":
+        return H.request(c)
+    if c["entry"] == "cascade":
+        return {"entry": "cascade", "num": [[k, exact(v)] for k, v in c["num"]], "den": [[k, exact(v)] for k, v in c["den"]],
+                "zero": exact(c["zero"]), "xs": [exact(x) for x in c["xs"]], "mems": [_mem_req(m) for m in c["mems"]]}
     r = {"entry": "call",
          "num": [[k, exact(v)] for k, v in c["num"]],
          "den": [[k, exact(v)] for k, v in c["den"]],
          "zero": exact(c["zero"]),
-         "xs": [exact(x) for x in c["xs"]]}
+         "xs": [exact(x) for x in xs_of(c)]}
+    if c.get("fast"):
+        r["fast"] = True
     m = c.get("mem")
     if m is None:
         r["mem"] = None
@@ -334,7 +518,7 @@ U = Fraction(1, 2 ** 52)
 def float_expected(c):
     """does the impl itself inject binary floats on this case?"""
     nums = [v for _, v in c["num"]] + [v for _, v in c["den"]]
-    others = [c["zero"]] + list(c["xs"])
+    others = [c["zero"]] + list(xs_of(c))
     m = c.get("mem")
     if m is not None:
         others += list(m.get("vals", [])) + [m[f] for f in ("base", "step") if f in m]
@@ -344,8 +528,10 @@ def float_expected(c):
         return True
     if is_nonint_frac(c["zero"]):                       # `yield {zero}` of the all-zero filter
         return True
-    if any(not isinstance(v, str) for v in others):     # an int sample: int/int true division by the gain
-        return True
+    if any(not isinstance(v, str) for v in others):     # an int sample: int/int true division by the gain ...
+        g = gain_of(c)
+        if g is None or val(g) not in (1, -1):          # ... unless the gain is 1 / -1 (no division is generated)
+            return True
     return False
 
 
@@ -381,7 +567,7 @@ def _outs_equal(c, got, want, drv_model):
         b = [dec(v) for v in drv_model["b"]]
         a = [dec(v) for v in drv_model["a"]]
         mem = [dec(v) for v in drv_model["mem"]]
-        tol = err_bounds(b, a, mem, dec(exact(c["zero"])), [dec(exact(x)) for x in c["xs"]], want)
+        tol = err_bounds(b, a, mem, dec(exact(c["zero"])), [dec(exact(x)) for x in xs_of(c)], want)
     else:
         tol = [0] * len(want)
     for i, (g, w, t) in enumerate(zip(got, want, tol)):
@@ -392,9 +578,82 @@ def _outs_equal(c, got, want, drv_model):
     return None
 
 
-def compare(c, io, drv):
+_ISO_BUDGET = [400]     # isolation re-runs of disagreeing call cases per process
+
+
+def _abbr(ir):
+    """IR for messages: long shift / summand lists are cut"""
+    if not isinstance(ir, dict):
+        return ir
+    d = dict(ir)
+    for f in ("shifts", "sum"):
+        if isinstance(d.get(f), list) and len(d[f]) > 8:
+            d[f] = d[f][:4] + ["… %d more …" % (len(d[f]) - 6)] + d[f][-2:]
+    return d
+
+
+def _compare_cascade(c, io, drv):
     out = []
     model, spec = drv["model"], drv["spec"]
+    if "err" in io:
+        if model.get("err") != io["err"]:
+            out.append(("model", "cascade raised %s (%s: %s), model says %s" % (io["err"], io.get("stage"), io.get("msg"), model.get("err", "no error"))))
+        if spec.get("err") != io["err"]:
+            out.append(("spec", "cascade raised %s (%s: %s), the property says %s" % (io["err"], io.get("stage"), io.get("msg"), spec.get("err", "no error"))))
+        return out
+    if "err" in model:
+        out.append(("model", "model raises %s, impl ran" % model["err"]))
+    if "err" in spec:
+        out.append(("spec", "the property demands %s, impl ran and gave %r" % (spec["err"], io["out"][:6])))
+    if out:
+        return out
+    k = len(c["mems"])
+    if k and (io["n_exec"] != k or not io["irs_equal"] or io["ir"] != model["ir"]):
+        out.append(("model", "%d stage(s) generated %d source(s) (all equal: %s); impl IR %r, model IR %r" % (
+            k, io["n_exec"], io["irs_equal"], _abbr(io["ir"]), _abbr(model["ir"]))))
+    got = [dec(v) for v in io["out"]]
+    for kind, ref, what in (("model", model, "output differs from model"),
+                            ("spec", spec, "the filter applied %d times to its own output violates the difference equation" % k)):
+        want = [dec(v) for v in ref["out"]]
+        if len(got) != len(want):
+            out.append((kind, "%s: length %d instead of %d" % (what, len(got), len(want))))
+        else:
+            bad = [i for i, (g, w) in enumerate(zip(got, want)) if isinstance(g, float) or g != w]
+            if bad:
+                out.append((kind, "%s: y[%d] = %s instead of %s" % (what, bad[0], got[bad[0]], want[bad[0]])))
+    return out
+
+
+def compare(c, io, drv):
+    if c["entry"] == "hist":
+        return H.compare(c, io, drv)
+    if c["entry"] == "cascade":
+        return _compare_cascade(c, io, drv)
+    out = _compare_call(c, io, drv)
+    if any(k == "spec" for k, _ in out) and not io.get("isolated") and _ISO_BUDGET[0] > 0:
+        _ISO_BUDGET[0] -= 1
+        # does the call fail on its own?  run it again as the only call of a process with freshly imported
+        # audiolazy: a disagreement that is gone there was produced by state that EARLIER cases of this run left
+        # in the library (caches, module globals) — still a violation (a call must not depend on earlier calls),
+        # but this case alone is not a witness of it; the histories are the self-contained witnesses
+        io2 = H.isolated(c)
+        if io2 is not None and "err" not in io2.get("_infra", {}):
+            out2 = _compare_call(c, io2, drv)
+            if not out2:
+                io["state_dependent"] = True
+                return [(k, "only after the earlier cases of this run (alone, in a fresh process, the call agrees): " + d)
+                        for k, d in out]
+            io["state_dependent"] = False
+    return out
+
+
+def _compare_call(c, io, drv):
+    out = []
+    model, spec = drv["model"], drv["spec"]
+    if c.get("fast") and "out" not in model and "out" in spec:
+        # long case: the generated loop is not executed statement by statement in Lean; model = spec
+        # by theorem filterCall_eq_specCall
+        model = dict(model, out=spec["out"])
     # --- errors -------------------------------------------------------------------------
     if "err" in io:
         if model.get("err") != io["err"]:
@@ -419,8 +678,9 @@ def compare(c, io, drv):
             out.append(("model", "%s after __init__ is %r, model %r" % (name, got, want)))
     # --- T3: structure of the generated source ------------------------------------------------
     if io["ir"] != model["ir"]:
+        src = io.get("src") or ""
         out.append(("model", "generated source differs from compile: impl IR %r, model IR %r; source:\n%s" % (
-            io["ir"], model["ir"], io.get("src"))))
+            _abbr(io["ir"]), _abbr(model["ir"]), src if len(src) < 600 else src[:300] + "\n…\n" + src[-200:])))
     # --- I/O --------------------------------------------------------------------------------
     got = [dec(v) for v in io["out"]]
     d = _outs_equal(c, got, [dec(v) for v in model["out"]], model)
@@ -433,6 +693,8 @@ def compare(c, io, drv):
     d = _outs_equal(c, got, [dec(v) for v in spec["out"]], model)
     if d:
         out.append(("spec", "output violates the difference equation: " + d))
+    if io.get("xs_modified"):
+        out.append(("spec", "the caller's input list was modified by the call"))
     return out
 
 
@@ -444,6 +706,10 @@ def _short_memory(c, model):
 
 
 def nontrivial(c, io):
+    if c["entry"] == "hist":
+        return H.nontrivial(c, io)
+    if c["entry"] == "cascade":
+        return "err" in io or (bool(io.get("out")) and len(c["mems"]) >= 2)
     return "err" in io or bool(io.get("out"))
 
 
@@ -456,7 +722,7 @@ def _d4_prediction(c, model):
     a = [dec(v) for v in model["a"]]
     mem = [dec(v) for v in model["mem"]]
     zero = dec(exact(c["zero"]))
-    xs = [dec(exact(x)) for x in c["xs"]]
+    xs = [dec(exact(x)) for x in xs_of(c)]
     g = a[0]
     wrong = Fraction(g.numerator) * Fraction(g.denominator)
     ys = []
@@ -471,7 +737,20 @@ def _d4_prediction(c, model):
 
 
 def classify(c, io, drv):
+    if c["entry"] == "hist":
+        return H.classify(c, io, drv)
+    if c["entry"] == "cascade":
+        ps = _compare_cascade(c, io, drv)
+        if "err" in io:
+            return "cascade:raises-%s-at-%s" % (io["err"], io.get("stage"))
+        if any(k == "spec" for k, _ in ps):
+            return "cascade:" + ("output-length" if any("length" in d for k, d in ps if k == "spec") else "output-values")
+        return "cascade:correspondence"
+    if io.get("state_dependent"):
+        return "call:state-left-by-earlier-cases-of-the-run"
     model, spec = drv.get("model", {}), drv.get("spec", {})
+    if c.get("fast") and "out" not in model and "out" in spec:
+        model = dict(model, out=spec["out"])
     if "err" in io:
         return "call:raises-%s-at-%s:expected-%s" % (io["err"], io.get("stage"), spec.get("err", "output"))
     if "err" in spec:
@@ -503,6 +782,8 @@ def classify(c, io, drv):
             parts.append("output-length")
         elif _outs_equal(c, [dec(v) for v in io["out"]], [dec(v) for v in spec["out"]], model):
             parts.append("output-values")
+    if io.get("xs_modified"):
+        parts.append("input-list-modified")
     return "call:" + ("+".join(parts) or "coefficients-after-init")
 
 
@@ -564,13 +845,14 @@ def _memory(rng, lm, xkind):
     if r < 0.75:
         n = rng.choice([lm, lm, lm, lm + 2, max(0, lm - 1), 0, lm + 1])
         return {"kind": "iter", "vals": [_sample(rng, xkind) for _ in range(n)],
-                "as": rng.choice(["list", "list", "tuple", "gen", "stream"])}
+                "as": rng.choice(["list", "list", "list", "tuple", "gen", "stream", "deque", "iter", "substream"])}
     if r < 0.85:
         return {"kind": "gen", "base": _sample(rng, xkind), "step": _sample(rng, xkind)}
     form = rng.choice(["arith", "arithrev", "fixed"])
     if form == "fixed":
         n = rng.choice([lm, lm + 1, max(0, lm - 1)])
-        return {"kind": "callable", "form": "fixed", "vals": [_sample(rng, xkind) for _ in range(n)]}
+        return {"kind": "callable", "form": "fixed", "vals": [_sample(rng, xkind) for _ in range(n)],
+                "ret": rng.choice(["list", "same", "tuple", "gen", "bound"])}
     return {"kind": "callable", "form": form, "base": _sample(rng, xkind), "step": _sample(rng, xkind)}
 
 
@@ -586,7 +868,7 @@ def _zero(rng, xkind):
 def _shape(rng, max_order):
     """one random filter shape: (route, num pairs, den pairs)"""
     ctype = rng.choice(["int", "int", "int", "frac", "float", "mixed"])
-    route = rng.choice(["list", "list", "dict", "zexpr", "linear"])
+    route = rng.choice(["list", "list", "list", "dict", "dict", "zexpr", "zexpr", "linear", "linear", "poly", "cast", "odict"])
     lb = rng.choice([0, 1, 1, 2, 3, rng.randint(0, max_order + 1)])
     la = rng.choice([1, 1, 2, 3, rng.randint(1, max_order + 1)])
     sparse = rng.random() < 0.25
@@ -607,7 +889,7 @@ def _shape(rng, max_order):
         b = [0] * lead + b           # keeps the filter causal after normalisation
     num = [[k, v] for k, v in enumerate(b)]
     den = [[k, v] for k, v in enumerate(a)]
-    if route in ("dict", "zexpr"):
+    if route in ("dict", "zexpr", "odict"):
         num = [[k, v] for k, v in num if val(v) != 0 or rng.random() < 0.3]
         den = [[k, v] for k, v in den if val(v) != 0 or rng.random() < 0.3]
         off = rng.choice([0, 0, 0, 1, -1, 3, -2])            # common shift: same transfer function
@@ -628,10 +910,131 @@ def _case(rng, route, num, den, max_len, xkind=None):
     return {"entry": "call", "route": route, "num": num, "den": den,
             "mem": _memory(rng, lm, xkind), "zero": _zero(rng, xkind),
             "xs": [_sample(rng, xkind) for _ in range(n)],
-            "xs_as": rng.choice(["list", "iter"])}
+            "xs_as": rng.choice(["list", "list", "iter", "tuple", "gen", "stream", "deque", "substream"])}
+
+
+# ---- long runs / large orders (DESIGN section 14: behaviour that only differs at large sizes) -------------
+LONG_DELAYS = [31, 32, 33, 63, 64, 65, 127, 128, 129, 255, 256, 257]
+
+
+def _pat(rng, n, frac=False):
+    if rng.random() < 0.3:
+        return {"n": n, "kind": "impulse", "at": rng.choice([0, 0, 1, 2]), "v": rng.choice([1, 1, 3, -2]), "frac": frac}
+    return {"n": n, "kind": "quad", "p": [rng.randint(1, 9), rng.randint(0, 30), rng.randint(0, 30), rng.choice([7, 11, 13, 17])],
+            "frac": frac}
+
+
+def _long_case(rng, shape, D, n=None):
+    """an exact (integer) case of large order D or long input: int coefficients, gain +-1 (no division is
+    generated) or Fraction samples; compared exactly"""
+    frac = rng.random() < 0.25
+    g = rng.choice([1, 1, -1]) if not frac else rng.choice([1, -1, 2, -2])
+    sm = (lambda: "%d/1" % rng.randint(-5, 5)) if frac else (lambda: rng.randint(-5, 5))
+    mem = None
+    if shape == "fir-sparse":            # feed-forward comb: x[n] + c*x[n-D] (+ a tap in between)
+        num = [[0, rng.choice([1, 1, -1, 2])], [D, rng.choice([1, -1, 2, 3, -2])]]
+        if rng.random() < 0.4:
+            num.insert(1, [rng.randint(1, D - 1), rng.choice([1, -1, 2])])
+        den = [[0, g]]
+        route = rng.choice(["dict", "dict", "zexpr", "odict"])
+    elif shape == "iir-sparse":          # feedback comb: y[n] = x[n] -+ y[n-D]
+        num = [[0, rng.choice([1, 2, -1])]] + ([[rng.randint(1, D), rng.choice([1, -1, 3])]] if rng.random() < 0.5 else [])
+        den = [[0, g], [D, rng.choice([1, -1])]]
+        if rng.random() < 0.3:
+            den.insert(1, [rng.randint(1, D - 1), rng.choice([1, -1])])
+        route = rng.choice(["dict", "dict", "zexpr", "odict"])
+        if rng.random() < 0.6:
+            mem = {"kind": "iter", "vals": [sm() for _ in range(D + rng.choice([0, 0, 1]))],
+                   "as": rng.choice(["list", "list", "tuple", "gen"])}
+    elif shape == "fir-dense":           # D+1 small integer coefficients
+        num = [[k, rng.choice([1, -1, 2, 0, 3, -2])] for k in range(D + 1)]
+        num[D][1] = rng.choice([1, -1, 2, 3])
+        den = [[0, g]]
+        route = rng.choice(["list", "list", "linear", "poly"])
+    elif shape == "both":                # feed-forward and feedback parts of (different) large orders
+        D2 = rng.choice([D, D - 1, D + 1, max(1, D // 2)])
+        num = [[0, 1], [D, rng.choice([1, -1, 2])]]
+        den = [[0, g], [D2, rng.choice([1, -1])]]
+        route = rng.choice(["dict", "zexpr"])
+        if rng.random() < 0.5:
+            mem = {"kind": "iter", "vals": [sm() for _ in range(D2)], "as": "list"}
+    else:                                # "long-input": small filters, thousands of samples
+        k = rng.choice(["acc", "osc", "fir", "comb"])
+        if k == "acc":
+            num, den = [[0, 1]], [[0, g], [1, -g]]
+        elif k == "osc":
+            num, den = [[0, 1], [1, rng.choice([1, 2])]], [[0, g], [1, -g], [2, g]]
+        elif k == "fir":
+            num, den = [[j, rng.choice([1, -2, 3, 5])] for j in range(rng.randint(2, 5))], [[0, g]]
+        else:
+            num, den = [[0, 1], [D, 2]], [[0, g], [D, rng.choice([1, -1])]]
+        route = rng.choice(["list", "dict", "zexpr"]) if k != "comb" else "dict"
+        if route == "list":
+            dn, dd = dict(map(tuple, num)), dict(map(tuple, den))
+            num = [[j, dn.get(j, 0)] for j in range(max(dn) + 1)]
+            den = [[j, dd.get(j, 0)] for j in range(max(dd) + 1)]
+        if rng.random() < 0.4:
+            mem = {"kind": "iter", "vals": [sm() for _ in range(_lm_of(den))], "as": "list"}
+    if n is None:
+        n = rng.choice([D + 3, 2 * D + 5, 3 * D + 7])
+    return {"entry": "call", "route": route, "num": num, "den": den, "mem": mem,
+            "zero": rng.choice([0, 0, 0, 7, -1]) if not frac else rng.choice(["0/1", "0/1", "7/1"]),
+            "xs_pat": _pat(rng, n, frac), "xs_as": rng.choice(["list", "list", "iter", "tuple", "stream"]),
+            "fast": True, "long": shape}
+
+
+def _gen_cascade(rng, tier, scale):
+    """re-entrant use: one filter object applied 2-4 times to its own lazy output (exact regime only: integer
+    coefficients, Fraction data, integer-valued zero)"""
+    out = []
+    for _ in range((120 if tier == "quick" else 1500) * scale):
+        route = rng.choice(["list", "list", "dict", "zexpr", "linear", "poly"])
+        lb, la = rng.choice([1, 2, 2, 3]), rng.choice([1, 2, 2, 3])
+        b = [rng.choice([0, 1, -1, 2, 3, -2]) for _ in range(lb)]
+        a = [rng.choice([1, -1, 2, 3])] + [rng.choice([0, 1, -1, 2, -3]) for _ in range(la - 1)]
+        num, den = [[k, v] for k, v in enumerate(b)], [[k, v] for k, v in enumerate(a)]
+        if route in ("dict", "zexpr"):
+            num = [[k, v] for k, v in num if v != 0]
+            den = [[k, v] for k, v in den if v != 0]
+            if rng.random() < 0.08:
+                num.append([-1, 2])                       # non-causal: refuses at the first stage
+        lm = _lm_of(den)
+        mems = []
+        for _ in range(rng.choice([2, 2, 3, 4])):
+            r = rng.random()
+            mems.append(None if r < 0.35 else
+                        {"kind": "iter", "vals": [_sample(rng, "frac") for _ in range(lm + rng.choice([0, 0, 1]))],
+                         "as": rng.choice(["list", "tuple", "gen", "stream", "deque"])} if r < 0.85 else
+                        {"kind": "callable", "form": "arith", "base": _sample(rng, "frac"), "step": _sample(rng, "frac")})
+        out.append({"entry": "cascade", "route": route, "num": num, "den": den, "mems": mems,
+                    "zero": rng.choice(["0/1", "0/1", "7/1", "-2/1"]),
+                    "xs": [_sample(rng, "frac") for _ in range(rng.choice([0, 1, 3, 5, 8]))],
+                    "xs_as": rng.choice(["list", "iter", "tuple", "gen", "stream"])})
+    return out
+
+
+def _gen_long(rng, tier, scale):
+    quick = tier == "quick"
+    out = []
+    reps = (2 if quick else 8) * scale
+    for _ in range(reps):
+        for D in LONG_DELAYS:
+            for shape in ("fir-sparse", "iir-sparse", "fir-dense", "both"):
+                if quick and shape == "fir-dense" and D > 130 and rng.random() < 0.5:
+                    continue
+                out.append(_long_case(rng, shape, D))
+        for n in ([1000, 1024, 1025, 2048, 4096, 4097, 5000] if quick else [1000, 1023, 1024, 1025, 2047, 2048, 2049, 4095, 4096, 4097, 8192, 8193, 10000]):
+            out.append(_long_case(rng, "long-input", rng.choice([1, 2, 3, 64, 100]), n=n))
+        for D in ([511, 512, 513] if not quick else [rng.choice([511, 512, 513])]):
+            out.append(_long_case(rng, "fir-sparse", D))
+            out.append(_long_case(rng, "iir-sparse", D))
+    return out
 
 
 def generate(rng, tier, scale=1):
+    # the process every history is forked from is started now, while this process is still small (a fork copies the
+    # page tables: forked after tens of thousands of cases exist, every child costs 10x more)
+    H._zygote_start()
     cases = []
     quick = tier == "quick"
     if scale == 1:
@@ -670,6 +1073,10 @@ def generate(rng, tier, scale=1):
             num = [[k, v] for k, v in dict((k, v) for k, v in num).items()]
             den = [[k, v] for k, v in dict((k, v) for k, v in den).items()]
         cases.append(_case(rng, route, num, den, 6, "frac"))
+    cases.extend(_gen_cascade(random.Random(rng.random()), tier, scale))
+    # long runs / large orders, then histories (own random streams: the batches above keep their draws)
+    cases.extend(_gen_long(random.Random(rng.random()), tier, scale))
+    cases.extend(H.generate(random.Random(rng.random()), tier, scale))
     return cases
 
 
@@ -677,11 +1084,28 @@ def generate(rng, tier, scale=1):
 # evidence histograms
 # ---------------------------------------------------------------------------------------------
 def tally(eng, c, io):
+    eng.count("entry", c["entry"] + ("/long" if c.get("long") else ""))
+    if c["entry"] == "hist":
+        return H.tally(eng, c, io)
+    if c["entry"] == "cascade":
+        eng.count("cascade_stages", len(c["mems"]))
+        eng.count("cascade_memories", "+".join(sorted({"none" if m is None else m.get("as", m["kind"]) for m in c["mems"]})) or "-")
+        eng.count("cascade_result", "error" if "err" in io else "outputs")
+        return
+    if c.get("long"):
+        eng.count("long_shape", c["long"])
+        ks = [k for k, v in c["num"] + c["den"] if val(v) != 0]
+        eng.count("long_order", max(ks) - min(ks) if ks else 0)
+        n = len(xs_of(c))
+        eng.count("long_input_len", "<100" if n < 100 else "100-999" if n < 1000 else "1000-4095" if n < 4096 else "4096+")
+        eng.count("long_samples", "Fraction" if c.get("xs_pat", {}).get("frac") or any(isinstance(x, str) for x in c.get("xs", [])) else "int")
+    eng.count("xs_flavour", c.get("xs_as", "list"))
     eng.count("route", c.get("route", "dict"))
     m = c.get("mem")
-    eng.count("memory", "none" if m is None else (m["kind"] + ":" + (m.get("form") or (m.get("as", "list") if m["kind"] == "iter" else "endless"))))
+    eng.count("memory", "none" if m is None else (m["kind"] + ":" + ((m.get("form") + ("/" + m["ret"] if "ret" in m else "")) if m.get("form")
+                                                                     else (m.get("as", "list") if m["kind"] == "iter" else "endless"))))
     eng.count("zero", "zero=0" if val(c["zero"]) == 0 else "zero!=0")
-    eng.count("len_x", min(len(c["xs"]), 16))
+    eng.count("len_x", min(len(xs_of(c)), 16))
     eng.count("regime", "float(bounded)" if float_expected(c) else "exact")
     if "err" in io:
         eng.count("impl_error", "%s@%s" % (io["err"], io.get("stage")))
@@ -721,12 +1145,114 @@ def _simplify_num(j):
 
 
 def shrink(c):
+    if c["entry"] == "hist":
+        for d in H.shrink(c):
+            yield d
+        return
+    if c["entry"] == "cascade":
+        ms = c["mems"]
+        for i in range(len(ms)):
+            yield dict(c, mems=ms[:i] + ms[i + 1:])
+            if ms[i] is not None:
+                yield dict(c, mems=ms[:i] + [None] + ms[i + 1:])
+                if ms[i].get("as", "list") != "list":
+                    yield dict(c, mems=ms[:i] + [dict(ms[i], **{"as": "list"})] + ms[i + 1:])
+        for d in _shrink_rest(dict(c, mem=None)):
+            if d.get("mem") is None and "fast" not in d:
+                d = dict(d)
+                d.pop("mem", None)
+                yield d
+        return
+    if "xs_pat" in c:
+        p = c["xs_pat"]
+        n = p["n"]
+        if n <= 12:
+            d = dict(c, xs=xs_of(c))
+            del d["xs_pat"]
+            yield d
+        for m in sorted({n // 2, (3 * n) // 4, n - 8, n - 1}):
+            if 0 <= m < n:
+                yield dict(c, xs_pat=dict(p, n=m))
+        if p["kind"] != "impulse":
+            yield dict(c, xs_pat={"n": n, "kind": "impulse", "at": 0, "v": 1, "frac": p.get("frac", False)})
+        c = dict(c, xs=[])           # the remaining candidates keep the pattern
+        pat = True
+    else:
+        pat = False
+    for d in _shrink_rest(c):
+        if pat:
+            d = dict(d)
+            d.pop("xs", None)
+        yield d
+
+
+BIGLIST = 12      # above this length a list is first shrunk in bulk (halves, all-equal), not item by item
+
+
+def _zero_like(v):
+    return "0/1" if isinstance(v, str) else ({"f": 0.0} if isinstance(v, dict) else 0)
+
+
+def _bulk_vals(vs):
+    """bulk simplifications of a long list of tagged numbers (same length)"""
+    n = len(vs)
+    if any(val(v) != 0 for v in vs[:n // 2]):
+        yield [_zero_like(v) for v in vs[:n // 2]] + vs[n // 2:]
+    if any(val(v) != 0 for v in vs[n // 2:]):
+        yield vs[:n // 2] + [_zero_like(v) for v in vs[n // 2:]]
+    if any(val(v) != 0 for v in vs[1:-1]):
+        yield vs[:1] + [_zero_like(v) for v in vs[1:-1]] + vs[-1:]
+    q = n // 4
+    if q and any(val(v) != 0 for v in vs[q:n - q]):
+        yield vs[:q] + [_zero_like(v) for v in vs[q:n - q]] + vs[n - q:]
+
+
+def _edge_items(n):
+    return range(n) if n <= BIGLIST else list(range(4)) + list(range(n - 4, n))
+
+
+def _retarget(c, side, nk):
+    """move the highest delay of one side down to nk (dict-like routes) / cut the list after delay nk (list-like
+    routes), cutting a given memory list to the new order so that it stays 'of sufficient length'"""
+    ps = c[side]
+    if c.get("route") in LIST_ROUTES:
+        d = dict(c, **{side: ps[:nk + 1]})
+    else:
+        j = max(range(len(ps)), key=lambda t: ps[t][0])
+        if any(q[0] == nk for q in ps):
+            return None
+        d = dict(c, **{side: [q for q in ps[:j] + [[nk, ps[j][1]]] + ps[j + 1:] if q[0] <= nk]})
+    m = c.get("mem")
+    if side == "den" and m is not None and "vals" in m:
+        lm = _lm_of(d["den"])
+        if len(m["vals"]) > lm:
+            d["mem"] = dict(m, vals=m["vals"][:lm])
+    return d
+
+
+def _shrink_rest(c):
+    # ---- large orders first: halve / decrement the highest delay of each side -----------------------------
+    for side in ("num", "den"):
+        ps = c[side]
+        ks = [k for k, v in ps]
+        if ks and max(ks) > 1:
+            k = max(ks)
+            for nk in sorted({k // 2, (3 * k) // 4, k - 1}):
+                if 0 < nk < k:
+                    d = _retarget(c, side, nk)
+                    if d is not None:
+                        yield d
     xs = c["xs"]
     if xs:
+        if len(xs) > BIGLIST:
+            yield dict(c, xs=xs[:len(xs) // 2])
+            yield dict(c, xs=xs[len(xs) // 2:])
+            for b in _bulk_vals(xs):
+                yield dict(c, xs=b)
         yield dict(c, xs=xs[:-1])
         yield dict(c, xs=xs[1:])
-        for i, x in enumerate(xs):
-            for s in _simplify_num(x)[:2]:
+        for i in _edge_items(len(xs)):
+            for s in _simplify_num(xs[i])[:2]:
                 yield dict(c, xs=xs[:i] + [s] + xs[i + 1:])
     if c.get("xs_as") == "iter":
         yield dict(c, xs_as="list")
@@ -737,30 +1263,59 @@ def shrink(c):
             if "vals" in m:
                 yield dict(c, mem={"kind": "iter", "vals": m["vals"], "as": "list"})
         if "vals" in m and m["vals"]:
-            yield dict(c, mem=dict(m, vals=m["vals"][:-1]))
-            for i, x in enumerate(m["vals"]):
-                for s in _simplify_num(x)[:2]:
-                    yield dict(c, mem=dict(m, vals=m["vals"][:i] + [s] + m["vals"][i + 1:]))
+            vs = m["vals"]
+            lm = _lm_of(c["den"])
+            if len(vs) > lm:
+                yield dict(c, mem=dict(m, vals=vs[:lm]))
+            if len(vs) > BIGLIST:
+                for b in _bulk_vals(vs):
+                    yield dict(c, mem=dict(m, vals=b))
+            yield dict(c, mem=dict(m, vals=vs[:-1]))
+            for i in _edge_items(len(vs)):
+                for s in _simplify_num(vs[i])[:2]:
+                    yield dict(c, mem=dict(m, vals=vs[:i] + [s] + vs[i + 1:]))
     if val(c["zero"]) != 0 or not isinstance(c["zero"], str):
         yield dict(c, zero="0/1")
     for side in ("num", "den"):
         ps = c[side]
-        for i in range(len(ps)):
+        listlike = c.get("route") in LIST_ROUTES
+        if len(ps) > BIGLIST:
+            if listlike:
+                for b in _bulk_vals([v for _, v in ps]):
+                    if side == "num" or val(b[0]) != 0:
+                        yield dict(c, **{side: [[k, v] for (k, _), v in zip(ps, b)]})
+            else:
+                srt = sorted(ps, key=lambda q: q[0])
+                yield dict(c, **{side: [srt[0], srt[-1]]})
+                yield dict(c, **{side: srt[:len(srt) // 2] + srt[-1:]})
+        for i in _edge_items(len(ps)):
             if side == "den" and len(ps) == 1:
                 break
-            if c.get("route") in ("list", "linear"):
+            if listlike:
                 if i == len(ps) - 1:
                     yield dict(c, **{side: ps[:-1]})
             else:
                 yield dict(c, **{side: ps[:i] + ps[i + 1:]})
-        for i, (k, v) in enumerate(ps):
+        for i in _edge_items(len(ps)):
+            k, v = ps[i]
             for s in _simplify_num(v):
                 yield dict(c, **{side: ps[:i] + [[k, s]] + ps[i + 1:]})
-    if c.get("route") in ("zexpr", "linear"):
-        yield dict(c, route="dict" if c["route"] == "zexpr" else "list")
+    if c.get("route") in ("zexpr", "linear", "poly", "cast", "odict"):
+        yield dict(c, route="dict" if c["route"] in ("zexpr", "odict") else "list")
+    if c.get("mem") is not None and "ret" in c["mem"] and c["mem"]["ret"] != "list":
+        yield dict(c, mem=dict(c["mem"], ret="list"))
+    if c.get("xs_as") not in ("list", "iter", None):
+        yield dict(c, xs_as="list")
+    if c.get("fast") and len(xs) <= 64 and all(k <= 16 for k, _ in c["num"] + c["den"]):
+        d = dict(c)
+        d.pop("fast", None)
+        d.pop("long", None)
+        yield d
 
 
 def neighbours(c):
+    if c["entry"] in ("hist", "cascade") or c.get("long"):
+        return
     for side in ("num", "den"):
         ps = c[side]
         for i, (k, v) in enumerate(ps):
